@@ -6,6 +6,8 @@ CONSTANTS
   OpsMenu <- MCOpsMenu
   RecallMenu <- MCRecallMenu
   MatchArms <- MCMatchArms
+  StrayBase = {}
+  StrayOps = {}
   Enumerate = FALSE
 INVARIANTS WellFormed NoSideEffectsOnFailure RecalledMarked ExitShape CompiledAgrees Emit
 CHECK_DEADLOCK FALSE
